@@ -272,3 +272,116 @@ def _identify_c(g: MG, C: frozenset, T: frozenset) -> bool:
         T = ga.district_of(sorted(C)[0])
         if not C <= T:  # cannot happen: C is bidirected-connected inside A
             raise AssertionError("model invariant broken")
+
+
+# --------------------------------------------------------------------------- m-separation (C04)
+
+
+def _latent_dag(g: MG) -> tuple[dict, dict]:
+    """Parents / children maps of the DAG in which every bidirected edge is an unobserved common parent."""
+    pa: dict = {n: set() for n in g.N}
+    ch: dict = {n: set() for n in g.N}
+    for u, v in g.D:
+        pa[v].add(u)
+        ch[u].add(v)
+    for i, e in enumerate(sorted(g.B, key=sorted)):
+        xs = sorted(e)
+        if len(xs) != 2:
+            continue
+        lat = ("latent", i)
+        pa[lat] = set()
+        ch[lat] = set(xs)
+        for x in xs:
+            pa[x].add(lat)
+    return pa, ch
+
+
+def m_separated(g: MG, a: str, b: str, C: Iterable[str]) -> bool:
+    """True iff a and b are d-separated given C in the latent-variable DAG of the ADMG g.
+
+    'Reachable' procedure of Koller & Friedman (Alg. 3.1, Bayes-ball): a search over
+    (node, direction of arrival) pairs.  Shares nothing with y0's ancestral-moral-graph test.
+    """
+    Z = _fs(C)
+    pa, ch = _latent_dag(g)
+    # ancestors of Z (inclusive) in the latent DAG
+    anc = set(Z)
+    todo = list(Z)
+    while todo:
+        n = todo.pop()
+        for p in pa[n]:
+            if p not in anc:
+                anc.add(p)
+                todo.append(p)
+    visited: set = set()
+    frontier = [(a, "up")]
+    while frontier:
+        y, d = frontier.pop()
+        if (y, d) in visited:
+            continue
+        visited.add((y, d))
+        if y not in Z and y == b:
+            return False
+        if d == "up" and y not in Z:
+            for p in pa[y]:
+                frontier.append((p, "up"))
+            for c in ch[y]:
+                frontier.append((c, "down"))
+        elif d == "down":
+            if y not in Z:
+                for c in ch[y]:
+                    frontier.append((c, "down"))
+            if y in anc:
+                for p in pa[y]:
+                    frontier.append((p, "up"))
+    return True
+
+
+def m_separated_bruteforce(g: MG, a: str, b: str, C: Iterable[str]) -> bool:
+    """Definition by enumeration of all simple paths of the latent DAG (validates m_separated in the self-test)."""
+    Z = _fs(C)
+    pa, ch = _latent_dag(g)
+    desc_has_z: dict = {}
+
+    def has_z_desc(n) -> bool:  # n or a descendant of n is in Z
+        if n not in desc_has_z:
+            seen, todo, hit = {n}, [n], False
+            while todo:
+                x = todo.pop()
+                if x in Z:
+                    hit = True
+                    break
+                for c in ch[x]:
+                    if c not in seen:
+                        seen.add(c)
+                        todo.append(c)
+            desc_has_z[n] = hit
+        return desc_has_z[n]
+
+    nbrs = {n: sorted(((p, "in") for p in pa[n]), key=str) + sorted(((c, "out") for c in ch[n]), key=str) for n in pa}
+    # a step (x -> y, kind): kind 'in' means the edge points into x (y is a parent of x), 'out' means x -> y
+
+    def walk(path: list, arrows: list) -> bool:
+        """arrows[i] is True iff edge i (between path[i], path[i+1]) points INTO path[i+1]."""
+        x = path[-1]
+        if x == b:
+            return True  # an active path was found
+        for y, kind in nbrs[x]:
+            if y in path:
+                continue
+            into_y = kind == "out"
+            # check that the middle node x (if any) does not block
+            if len(path) >= 2:
+                into_x_prev = arrows[-1]
+                into_x_next = kind == "in"  # the edge y -> x points into x
+                collider = into_x_prev and into_x_next
+                if collider:
+                    if not has_z_desc(x):
+                        continue
+                elif x in Z:
+                    continue
+            if walk(path + [y], arrows + [into_y]):
+                return True
+        return False
+
+    return not walk([a], [])
